@@ -223,13 +223,18 @@ def e_ppm(c):
     return {"nontrivial": True, "classes": [c["decision"], f"M{M}", c["shape"], c["elem"], f"pol{c['npol']}", "odd-sps" if c["sps"] % 2 else "even-sps"]}
 
 
-s_cnt = st.fixed_dictionaries({"n": st.integers(1, 400), "seed": st.integers(0, 2 ** 31 - 1), "frac": st.floats(0, 1), "form": st.sampled_from(["bs", "list", "array", "str"])})
+s_cnt = st.fixed_dictionaries({"n": st.one_of(st.integers(1, 400), st.integers(1, 400), st.integers(1, 400), st.sampled_from([65535, 65536, 65537, 70000, 131072, 300000])), "seed": st.integers(0, 2 ** 31 - 1), "frac": st.floats(0, 1), "form": st.sampled_from(["bs", "list", "array", "str"])})
 
 
 def e_cnt(c):
     rs = np.random.RandomState(c["seed"])
     n = c["n"]
     k = int(c["frac"] * n)
+    if n > 400:
+        # error counts around and beyond 2^8 / 2^16 (a narrow counter wraps there) - long records are boxed as arrays / sequences only
+        k = [256, 65535, 65536, 65537, n, n - 1, k, k][c["seed"] % 8]
+        k = min(k, n)
+        c = dict(c, form=c["form"] if c["form"] in ("bs", "array") else "array")
     tx = rs.randint(0, 2, n)
     rx = tx.copy()
     pos = rs.choice(n, k, replace=False)
@@ -242,7 +247,7 @@ def e_cnt(c):
     got2 = lib(PPM.BER_analizer, "counter", Tx=box(tx), Rx=box(rx))
     check(float(got1) == want, "ook-ber-counter!=k/n", f"{got1} vs {k}/{n}")
     check(float(got2) == want, "ppm-ber-counter!=k/n", f"{got2} vs {k}/{n}")
-    return {"nontrivial": 0 < k < n, "classes": [c["form"]]}
+    return {"nontrivial": 0 < k < n, "classes": [c["form"], "n>65535" if n > 65535 else "n<=400"]}
 
 
 def classify(part, case, v):
